@@ -21,15 +21,21 @@ def lower(c):
 
 
 def wild_match(p, s):
-    """documented AFSP semantics on qualified strings"""
+    """documented AFSP semantics on qualified strings (tied to Beeb.Spec.wildMatch on every use)"""
+    r = wild_match_(bytes(p), bytes(s))
+    vlib.spec_tie('wild %s %s' % (vlib.hexs(p), vlib.hexs(s)), '1' if r else '0')
+    return r
+
+
+def wild_match_(p, s):
     if not p:
         return not s
     w = p[0]
     if w == 0x23:
-        return bool(s) and s[0] != 0x2E and wild_match(p[1:], s[1:])
+        return bool(s) and s[0] != 0x2E and wild_match_(p[1:], s[1:])
     if w == 0x2A:
-        return wild_match(p[1:], s) or (bool(s) and s[0] != 0x2E and wild_match(p, s[1:]))
-    return bool(s) and lower(w) == lower(s[0]) and wild_match(p[1:], s[1:])
+        return wild_match_(p[1:], s) or (bool(s) and s[0] != 0x2E and wild_match_(p, s[1:]))
+    return bool(s) and lower(w) == lower(s[0]) and wild_match_(p[1:], s[1:])
 
 
 def qualify_wild(vol, dirc, w):
